@@ -382,8 +382,8 @@ class Ex:
     def builtin(self, name: str) -> Val:
         if name in BUILTIN_EXC_PARENT or name in BUILTIN_TYPES:
             return VLib("builtins." + name)
-        if name in self.lib.BUILTINS:
-            return VLib("builtins." + name)
+        if name in self.lib.BUILTINS or ("builtins." + name) in self.cfg.lib_overrides:
+            return VLib("builtins." + name)       # a builtin the unit gave a contract for (eval, ...)
         if name == "__name__":
             return VStr("module")
         raise Unsupported(f"unknown name {name!r}")
